@@ -87,6 +87,7 @@ const basePrelude = `
 (declare-fun s.fmt (Int) Str)
 (declare-fun iface.tag (Iface) Int)
 (declare-const iface.nil Iface)
+(declare-fun f2i (Float) Int)
 (declare-fun bitand (Int Int) Int)
 (declare-fun bitor (Int Int) Int)
 (declare-fun bitxor (Int Int) Int)
